@@ -18,7 +18,7 @@ PROP = Property(
           'containing the id used in the command, several names containing the same id), nested directories '
           '(archive/ with PEL-named files, two levels deep), an output directory inside, outside or equal to the PEL '
           'directory - and one command out of every CLI mode (-l -a -n -i --bmc-id --plid --src --src-exclude -f, '
-          'each with optional -x -r -e and selection options; -j [-o]; -d E in all id spellings incl. invalid lengths; '
+          'each with optional -x -r -e and selection options; -j [-o]; -d E / --delete E / --delete=E in all id spellings incl. invalid lengths, the empty string, a bare 0x and a blank; '
           '-D). Oracle: recursive snapshot (path, type, size, sha256) before/after. Non-trivial = tree with >= 2 '
           'levels and >= 2 candidate files for -d, or any -D / -j run on a tree with nested PEL files, or -j into the '
           'PEL directory itself.'),
@@ -103,7 +103,9 @@ def command(draw):
         c['sel'] = draw(D.selection())
         c['ext'] = draw(st.sampled_from([None, None, '.pel']))
     elif kind == 'delete':
-        c['spell'] = draw(st.sampled_from(['plain', '0x', '0Xlower', 'lower', 'short', 'long']))
+        c['spell'] = draw(st.sampled_from(['plain', '0x', '0Xlower', 'lower', 'short', 'long', 'plain', 'lower',
+                                           'empty', 'only-0x', 'blank']))
+        c['optform'] = draw(st.sampled_from(['-d', '-d', '--delete', '--delete=']))
     return c
 
 
@@ -114,7 +116,10 @@ def draw_clean_spelling(n):
 def spell(v, how):
     s = '%08X' % v
     return {'plain': s, '0x': '0x' + s, '0Xlower': '0X' + s.lower(), 'lower': s.lower(), 'short': s[1:],
-            'long': s + '0'}[how]
+            'long': s + '0', 'empty': '', 'only-0x': '0x', 'blank': ' '}[how]
+
+
+INVALID_SPELLINGS = ('short', 'long', 'empty', 'only-0x', 'blank')
 
 
 def diff(before, after):
@@ -205,7 +210,9 @@ def tree_snapshots(case, note):
                 argv.append('-c')
             argv += D.selection_argv(c['sel'])
         elif kind == 'delete':
-            argv += ['-d', spell(t['target'], c['spell'])]
+            form = c.get('optform', '-d')
+            argv += [form + spell(t['target'], c['spell'])] if form.endswith('=') else \
+                [form, spell(t['target'], c['spell'])]
         else:
             argv.append('-D')
         before = D.snapshot(top)
@@ -222,7 +229,8 @@ def tree_snapshots(case, note):
                 raise Violation('C11.read-only', '%s changed the tree: removed %r created %r modified %r'
                                 % (what, removed, created, modified), sig='C11.read-only')
         elif kind == 'delete':
-            valid = c['spell'] not in ('short', 'long')
+            valid = c['spell'] not in INVALID_SPELLINGS
+            note.label('id-spelling=' + ('valid' if valid else c['spell']))
             cands = [k for k in top_files if tid in k] if valid else []
             gone = [rel(k) for k in removed]
             if created or modified or not set(gone) <= set(cands) or len(gone) != min(1, len(cands)):
